@@ -73,6 +73,8 @@ type Engine struct {
 	Steps []Step
 	// ChildBuild, if set, runs a build in a fresh process instead of in-process.
 	ChildBuild func(req BuildReq, env []string) (BuildRes, bool)
+	// Live, when set, serves the in-process builds from one long-lived Project (Reload + Run)
+	Live *Live
 	LastRes    BuildRes
 	nAdd       int
 	preStale   map[string]string
@@ -716,9 +718,12 @@ func (e *Engine) Build(target string, o BuildOpt) (*Step, BuildRes, bool) {
 	req := BuildReq{Root: e.S.Root, Target: target, Always: o.Always, Dry: o.Dry, Args: e.P.Args}
 	var res BuildRes
 	alive := true
-	if o.Child && e.ChildBuild != nil {
+	switch {
+	case o.Child && e.ChildBuild != nil:
 		res, alive = e.ChildBuild(req, o.Env)
-	} else {
+	case e.Live != nil:
+		res = e.Live.Build(req) // Reload() + Run() on one long-lived Project (the `dawn watch` path)
+	default:
 		res = Build(req)
 	}
 	e.LastRes = res
